@@ -12,6 +12,7 @@ package dbSync
 
 import (
 	"errors"
+	"time"
 
 	"github.com/alibaba/RedisShake/pkg/libs/io/pipe"
 	utils "github.com/alibaba/RedisShake/redis-shake/common"
@@ -74,12 +75,18 @@ func VF_C19_StatusAndSafeOptions() {
 	ds := NewDbSyncer(vfNode(ps, pt), 9320, semaphore.NewWeighted(1))
 	ds.sendBuf = make(chan cmdDetail, 1)
 	ds.delayChannel = make(chan *delayNode, 1)
+	// the document depends on the syncer's history: first attempt, restarted once or several times
+	ds.fullSyncRetryCounter = vfPick("retries", 4)
+	ds.lastRetry = time.Unix(1600000000, 0)
 	info := ds.GetExtraInfo()
 	for k, v := range info {
 		vfCheckNoSecret("DbSyncer.GetExtraInfo()["+k+"]", vfSprint(v))
 	}
+	// the REST layer and metric.print_log serve it as JSON, which does not go through String()
+	vfCheckNoSecret("DbSyncer.GetExtraInfo() as JSON", vfJSON(info))
 	safe := conf.GetSafeOptions()
 	vfCheckNoSecret("conf.GetSafeOptions()", vfSprint(safe))
+	vfCheckNoSecret("conf.GetSafeOptions() as JSON (startup echo, /conf)", vfJSON(safe))
 	vfAssert(safe.SourcePasswordRaw == "***" && safe.TargetPasswordRaw == "***", "password fields of the shown configuration are not masked")
 	vfAssert(vfEqStr(conf.Options.SourcePasswordRaw, ps), "masking changed the live configuration")
 	_ = utils.CheckpointKey
